@@ -210,6 +210,8 @@ def run(ctx):
     base += [job(D, g, "det", c, seeds[0], target="sphere_corner", hedge=[hv] * 80, opts=o) for D in Ds for g in ("lin", "lin2") for c in (None, "ball")
              for hv in (0.0, 0.999999) for o in ({}, {"tol_fun": 1e-2}, {"tol_fun": 1e-4})]
     base += [job(D, "lin", "det", None, seeds[0], target="adv", opts={"tol_mesh": 2.0**-4, "tol_fun": tf}) for D in Ds for tf in (1e-3, 1e-2)]
+    # fixed LCB parameter (exploitation only / strong exploration) instead of the annealed schedule
+    base += [job(D, g, m, None, seeds[0], target="sphere_corner", opts={"search_acq_fcn": ("acq_LCB", b)}) for D in Ds for g in ("lin", "lin2") for m in ("det", "decl") for b in (0, 0.0, 2.0)]
     st = explore(base, ["ans"], 0, sink, name="runs/b0")
     adv = [job(D, "lin", "det", c, seeds[0], target="adv", opts={"tol_mesh": 2.0**-4}) for D in (1, 2) for c in (None, "ball")]
     st = explore(adv, ["ans"], 1, sink, stats=st, name="adv/b1", pos_ok=(lambda k, p, r: p < 12) if q else None)
